@@ -358,6 +358,7 @@ def from_rational (p q : Int) (prec : Int) (rnd : Rnd := .d) : Except Err Mpf :=
 /-- `mpf_mod(s, t, prec, rnd)`; a zero divisor raises ZeroDivisionError (from Python's `%`). -/
 def mpf_mod (s t : Mpf) (prec : Int) (rnd : Rnd := .d) : Except Err Mpf :=
   if isSpecial s ∨ isSpecial t then .ok fnan
+  else if t.man = 0 then .error .zeroDiv
   else if s.sign = t.sign ∧ t.exp > s.exp + s.bc then .ok (mpf_pos s prec rnd)
   else if t.man = 1 ∧ s.exp > t.exp + t.bc then .ok fzero
   else
